@@ -36,6 +36,7 @@ pub struct PubKey(pub [u8; 33]);
 impl Octets {
     pub uninterp spec fn bytes(&self) -> Seq<u8>;
     #[verifier::external_body] pub fn is_empty(&self) -> (r: bool) ensures r == (self.bytes().len() == 0) { unimplemented!() }
+    #[verifier::external_body] pub fn len(&self) -> (r: usize) ensures r == self.bytes().len() { unimplemented!() }
 }
 pub uninterp spec fn script_of_bytes(b: Seq<u8>) -> ScriptBuf;          // ScriptBuf::from_bytes
 pub uninterp spec fn key_of_wire(k: PubKey) -> PublicKey;               // PublicKey::from_slice(&key.0) (abort when malformed)
